@@ -105,6 +105,91 @@ func c19FreshStat(r *Run) {
 		})
 	}
 	r.Floor("fresh-stat", nLit, 1, "FileRef constructions in ufs")
+	// every entry handed out (Attach, Walk, Create) is constructed — and therefore stat-ed — for that call: a FileRef
+	// kept from an earlier call carries the stat taken then
+	nOut := 0
+	for _, fn := range p.FuncsOfPkg("ufs") {
+		if fn.Parent() != nil {
+			continue
+		}
+		res := fn.Signature.Results()
+		for i := 0; i < res.Len(); i++ {
+			if !isP9P(res.At(i).Type(), "Dirent") {
+				continue
+			}
+			for _, ret := range returnsOf(fn) {
+				if i >= len(ret.Results) || isNilConst(ret.Results[i]) {
+					continue
+				}
+				nOut++
+				okFresh := true
+				out := stripConv(ret.Results[i])
+				if mi, ok := out.(*ssa.MakeInterface); ok {
+					out = stripConv(mi.X)
+				}
+				for _, alt := range phiAlternatives(out, 2) {
+					v := stripConv(alt)
+					if mi, ok := v.(*ssa.MakeInterface); ok {
+						v = stripConv(mi.X)
+					}
+					fresh := false
+					switch x := v.(type) {
+					case *ssa.Extract:
+						if c, ok := x.Tuple.(*ssa.Call); ok && x.Index == 0 {
+							if g := staticCallee(&c.Call); g != nil && g.Name() == "newRef" {
+								fresh = true
+							}
+						}
+					case *ssa.Call:
+						if g := staticCallee(&x.Call); g != nil && g.Name() == "newRef" {
+							fresh = true
+						}
+					case *ssa.Alloc:
+						if flds, _, ok := allocFields(x); ok {
+							if _, isLit := flds["Path"]; isLit {
+								fresh = true // a literal: its Info is checked above
+							}
+						}
+					case *ssa.Const:
+						fresh = x.Value == nil
+					}
+					if !fresh {
+						okFresh = false
+					}
+				}
+				r.Check(okFresh, "fresh-stat", fnName(fn)+": the entry handed out is constructed (stat-ed) by this call", ret.Pos(),
+					"the entry returned is not the result of newRef or a fresh FileRef literal (e.g. a copy of a cached FileRef): its stat is the one taken when it was cached, not the host's current one")
+			}
+		}
+	}
+	r.Floor("fresh-stat", nOut, 3, "entries handed out by ufs (Attach, Walk, Create)")
+	// atime reads the access time
+	nAt := 0
+	for _, fn := range p.FuncsOfPkg("ufs") {
+		if fn.Name() != "atime" {
+			continue
+		}
+		eachInstr(fn, func(in ssa.Instruction) {
+			var name string
+			switch x := in.(type) {
+			case *ssa.FieldAddr:
+				if strings.HasSuffix(shortType(x.X.Type()), "Stat_t") {
+					name = fieldName(x.X.Type(), x.Field)
+				}
+			case *ssa.Field:
+				if strings.HasSuffix(shortType(x.X.Type()), "Stat_t") {
+					name = fieldNameV(x.X.Type(), x.Field)
+				}
+			}
+			if name == "" {
+				return
+			}
+			nAt++
+			r.Check(strings.HasPrefix(name, "Atim"), "dir-map", "atime: the access time is read from the stat record's access-time field", in.Pos(),
+				"atime reads Stat_t."+name+": Dir.AccessTime does not carry the host's access time")
+		})
+	}
+	r.Floor("dir-map", nAt, 1, "Stat_t field read in atime")
 }
 
 func c19Oflags(r *Run) {
@@ -605,23 +690,75 @@ func c19Create(r *Run) {
 		}
 	}
 	r.Floor("create-open", nOF, 1, "OpenFile in Create")
+	// Open: the host file is opened (never created) with the translated mode — directly, or in a helper handed the
+	// entry's own path and the mode
+	nOpen := 0
+	type openSite struct {
+		c    *ssa.Call
+		res  ssa.Value                 // the opened file as Open sees it
+		at   ssa.Instruction           // where, in Open
+		bind func(ssa.Value) ssa.Value // value of the site's function → value in Open
+	}
+	var osites []openSite
 	for _, c := range findCalls(op, "os.OpenFile") {
+		osites = append(osites, openSite{c, resultN(c, 0), c, func(v ssa.Value) ssa.Value { return v }})
+	}
+	eachInstr(op, func(in ssa.Instruction) {
+		hc, ok := in.(*ssa.Call)
+		if !ok {
+			return
+		}
+		g := staticCallee(&hc.Call)
+		if g == nil || g.Blocks == nil || g.Pkg != op.Pkg || g == op {
+			return
+		}
+		for _, c := range findCalls(g, "os.OpenFile") {
+			// the helper must hand back OpenFile's own result
+			fwd := false
+			for _, ret := range returnsOf(g) {
+				if len(ret.Results) >= 1 && ret.Results[0] == resultN(c, 0) {
+					fwd = true
+				}
+				if tup, ok := ret.Results[0].(*ssa.Extract); ok && tup.Tuple == ssa.Value(c) {
+					fwd = true
+				}
+			}
+			if !fwd {
+				continue
+			}
+			hc := hc
+			osites = append(osites, openSite{c, resultN(hc, 0), hc, func(v ssa.Value) ssa.Value {
+				for i, prm := range g.Params {
+					if ssa.Value(prm) == v && i < len(hc.Call.Args) {
+						return hc.Call.Args[i]
+					}
+				}
+				return nil
+			}})
+		}
+	})
+	for _, os := range osites {
+		c := os.c
+		nOpen++
 		okFlags := false
-		if oc, ok := c.Call.Args[1].(*ssa.Call); ok && calleeName(&oc.Call) == "ufs.oflags" && oc.Call.Args[0] == ssa.Value(op.Params[2]) {
+		if oc, ok := c.Call.Args[1].(*ssa.Call); ok && calleeName(&oc.Call) == "ufs.oflags" && os.bind(oc.Call.Args[0]) == ssa.Value(op.Params[2]) {
 			okFlags = true
 		}
-		r.Check(okFlags && pt.classAt(op, c.Call.Args[0], c, nil, 0) == pHC, "create-open", "Open: OpenFile(own path, oflags(mode), 0)", c.Pos(), "open does not use the entry's own path with the requested mode")
+		pathArg := os.bind(c.Call.Args[0])
+		r.Check(okFlags && pathArg != nil && pt.classAt(op, pathArg, os.at, nil, 0) == pHC, "create-open", "Open: OpenFile(own path, oflags(mode), 0)", c.Pos(),
+			"open does not use the entry's own path with exactly the requested mode (e.g. it adds O_CREATE: opening a file that is gone re-creates it)")
 		// the opened file becomes the fid's file
 		okSt := false
 		eachInstr(op, func(in ssa.Instruction) {
 			if st, ok := in.(*ssa.Store); ok {
-				if fa, ok := st.Addr.(*ssa.FieldAddr); ok && fa.X == ssa.Value(op.Params[0]) && fieldName(fa.X.Type(), fa.Field) == "file" && st.Val == resultN(c, 0) && callSucceededAt(c, st) {
+				if fa, ok := st.Addr.(*ssa.FieldAddr); ok && fa.X == ssa.Value(op.Params[0]) && fieldName(fa.X.Type(), fa.Field) == "file" && st.Val == os.res && callSucceededAt(os.at.(ssa.Value), st) {
 					okSt = true
 				}
 			}
 		})
 		r.Check(okSt, "create-open", "Open: the opened host file becomes the entry's file", c.Pos(), "reads/writes go to another file than the one opened")
 	}
+	r.Floor("create-open", nOpen, 1, "OpenFile reached from Open")
 	for _, c := range findCalls(rm, "os.Remove") {
 		r.Check(pt.classAt(rm, c.Call.Args[0], c, nil, 0) == pHC, "create-open", "Remove: removes the entry's own host path", c.Pos(), "remove acts on another path")
 	}
